@@ -136,7 +136,7 @@ CHECKS = {
             "exact-integer model must be one of them with the same loss.",
             "Trusted: TLC; the linear read-out model is defined in TLA+ and mirrored in torch (cross-checked through the final loss).",
             "DESIGN.md §5 C20"),
-    "C16": (["Meme", "LociOps", "Loci", "Loci_Trace"],
+    "C16": (["Meme", "LociOps", "Loci", "Loci_Trace", "Vcf_Trace"],
             "step-shaped TLA+ model of the MEME parser over all valid layouts (Meme.tla; as-found commit rule as spec-level "
             "mutant) and declarative window/filter/interleave spec (LociOps) model-checked with TLC; every layout rendered to a "
             "real file and every enumerated locus call executed with in-memory and file inputs, explained by Loci_Trace",
@@ -204,7 +204,7 @@ CHECKS = {
             "must return the n smallest p-values ascending with matching fields; the poison lane fills all scratch with NaN / 77 and requires unchanged results.",
             "Trusted: TLC; numba's scheduler cannot be forced (the model covers every assignment); CRC32 of float64 bytes.",
             "DESIGN.md §5 C13"),
-    "C14": (["Rat", "TomtomScoreOps", "TomtomScore", "TomtomNull", "TomtomScore_Oracle"],
+    "C14": (["Rat", "TomtomScoreOps", "TomtomScore", "TomtomNull", "TomtomScore_Oracle", "SymIndex", "SymTomtom_Trace"],
             "declarative TLA+ definition of TOMTOM complete scores, admissible alignments and the exact null p-value "
             "(TomtomScoreOps) model-checked with TLC on all small similarity matrices (CdfMonotone, NoDrop, PValueRange, Alignment; "
             "as-found zero-bin drop as spec-level mutant); TLC as exact oracle for random query/target sets run through the real "
